@@ -28,6 +28,15 @@ func checkC04(c *Ctx) {
 	c.hashMapLocks("LOCKSET")
 	c.Decides("FRESH: ClearBitSets gives every branch a new bitset of the current tip count, unconditionally (no reuse of a bitset whose width belongs to an earlier tip set)")
 	c.freshBitsets("FRESH")
+	c.Decides("LOSTWRITE: no loop of hashmap/tree/support stores into the per-iteration copy of a struct-valued range variable without using the copy afterwards (an overwrite of an existing key that only reaches the copy leaves the old value in the table)")
+	nl, _ := c.lostWrite("LOSTWRITE", c.AllFuncs("hashmap", "tree", "support"), "the index overwrites entries exactly like a plain map")
+	c.Extra["struct_valued_range_loops"] = nl
+	if fx := c.Fixture(); fx != nil {
+		sub := c.subCtx(fx)
+		_, nv := sub.lostWrite("LOSTWRITE", sub.AllFuncs(), "")
+		c.Control("LOSTWRITE", nv == 1, "fixture.C04LostWrite stores into the copy of a struct-valued range variable")
+	}
+	c.Floor("LOSTWRITE", 1)
 	c.Floor("NET", 1)
 	c.Floor("PRESENT", 3)
 	c.Floor("SYM", 3)
